@@ -10,6 +10,8 @@
 //	sshpool one desync.RemoteSSH store with a pool of n in-process casync sessions: failing answers
 //	        (missing, invalid, garbage, abort, dead peer) interleaved with successful ones, sequentially
 //	        and from several goroutines, further requests, Close                            (pool_test.go)
+//	pull    the child process `desync --config <cfg> pull - - - <store>` over pipes: store directory with
+//	        chunks in the configured format, the other format, both, neither or corrupt x config variants (pull_test.go)
 //	proto   desync.Protocol clients against desync.NewProtocolServer over io.Pipe pairs; returned
 //	        chunks are held and consumed later through their storage form   (proto_test.go, held_test.go)
 package c14
@@ -27,13 +29,14 @@ import (
 
 // Case is the replay file. Exactly one of the four sub-cases is used, selected by Mode.
 type Case struct {
-	Mode   string      `json:"mode"` // matrix | index | script | proto | ssh | sshpool
+	Mode   string      `json:"mode"` // matrix | index | script | proto | ssh | sshpool | pull
 	Matrix *MatrixCase `json:"matrix,omitempty"`
 	Index  *IndexCase  `json:"index,omitempty"`
 	Script *ScriptCase `json:"script,omitempty"`
 	Proto  *ProtoCase  `json:"proto,omitempty"`
 	SSH    *SSHCase    `json:"ssh,omitempty"`
 	Pool   *PoolCase   `json:"pool,omitempty"`
+	Pull   *PullCase   `json:"pull,omitempty"`
 }
 
 func genCase(t *rapid.T) Case {
@@ -49,6 +52,10 @@ func genCase(t *rapid.T) Case {
 		ic := genIndex(t)
 		return Case{Mode: "index", Index: &ic}
 	case m < 11:
+		if pullBin() != "" && rapid.IntRange(0, 3).Draw(t, "pull") == 0 {
+			pc := genPull(t)
+			return Case{Mode: "pull", Pull: &pc}
+		}
 		pc := genPool(t)
 		return Case{Mode: "sshpool", Pool: &pc}
 	case m < 17:
@@ -74,6 +81,8 @@ func run(c Case) (o hx.Outcome) {
 		o = runSSH(*c.SSH)
 	case c.Mode == "sshpool" && c.Pool != nil:
 		o = runPool(*c.Pool)
+	case c.Mode == "pull" && c.Pull != nil:
+		o = runPullCLI(*c.Pull)
 	default: // a hand-edited replay file without a sub-case: nothing to run
 		o.Desc = map[string]any{"mode": c.Mode, "empty": true}
 		return o
@@ -93,8 +102,9 @@ var spec = &hx.Spec[Case]{
 		"(proto) 1..3 casync protocol sessions over pipes on one store with present/missing/corrupt chunks, repeated IDs, large-then-smaller-or-equal reply orders and a closed or cut connection; " +
 		"every chunk a session returned is held and consumed later (at generated points and after the history) through a compressed and an uncompressed HTTP chunk server, a cache writing to a compressed LocalStore and an uncompressed LocalStore. " +
 		"(sshpool) one RemoteSSH store over a pool of n in 1..3 in-process casync sessions (stand-in peer that keeps the session open after MISSING): history of <= 12 GetChunk/HasChunk for chunks answered present/missing/invalid/garbage/abort/dead-peer, issued sequentially or by 2..4 goroutines, then 1..4 further sequential requests and Close; fixed cases n x failing answer x {sequential, 3 goroutines} with n+1 failures before a present chunk. " +
+		"(pull) child process `desync --config <cfg> pull - - - <store>` over pipes, client side desync.Protocol: config in {no entry, uncompressed entry keyed by the served path, uncompressed entry keyed by another path, compressed entry} x 1..4 chunks held in the configured format / the other format / both / neither / corrupt x <= 5 requests (fresh child after every answer that is not a chunk); about 1 case in 80 plus 4 fixed cases. " +
 		"non-trivial = matrix case in which compression settings differ between at least two of the three hops, script with >= 1 transient failure followed by a terminal response within the attempts made, " +
-		"index history touching a present and an absent name, protocol history with a present and a non-present request, a broken connection, or a held chunk followed on its session by a different reply that is not larger, ssh pool history with more failing answers than sessions; distinct by configuration + history shape",
+		"index history touching a present and an absent name, protocol history with a present and a non-present request, a broken connection, or a held chunk followed on its session by a different reply that is not larger, ssh pool history with more failing answers than sessions, pull case whose config names an uncompressed store; distinct by configuration + history shape",
 	Assumptions: []string{
 		"plain HTTP/1.1 on loopback through net/http/httptest; TLS, HTTP/2, proxies and real ssh are not in the loop",
 		"scripted server disables keep-alive so that every desync attempt is exactly one request on a fresh connection (net/http's own transparent retry of idempotent requests on reused connections is outside the policy under test)",
@@ -127,6 +137,9 @@ var spec = &hx.Spec[Case]{
 		"script:kind:reset", "script:kind:short", "script:kind:5xx",
 		"script:m:getchunk", "script:m:haschunk", "script:m:storechunk", "script:m:getindex", "script:m:storeindex",
 		"proto:present", "proto:missing", "proto:corrupt", "proto:break:close", "proto:break:cut", "proto:store:mem", "proto:store:local", "proto:store:local-unc",
+		"mode:pull", "pull:config-default", "pull:config-uncompressed", "pull:config-other-path", "pull:config-compressed-entry",
+		"pull:present", "pull:missing", "pull:other-format-only", "pull:corrupt",
+		"pull:have:both-formats", "pull:have:configured-format-only", "pull:have:other-format-only", "pull:have:none", "pull:have:corrupt",
 		"mode:sshpool", "ssh-pool:n=1", "ssh-pool:n=2", "ssh-pool:n=3", "ssh-pool:failures>pool-size", "ssh-pool:ok-after-failures>pool-size", "ssh-pool:sequential", "ssh-pool:concurrent",
 		"ssh-pool:further-request", "ssh-pool:close", "ssh-pool:request-on-dead-session",
 		"ssh-pool:answer:present", "ssh-pool:answer:missing", "ssh-pool:answer:invalid", "ssh-pool:answer:garbage", "ssh-pool:answer:abort", "ssh-pool:answer:die",
